@@ -353,6 +353,12 @@ CHECKS["C08"] = {
           covers=["matched concurrently"], weight=3, **_envonly)
         for m, lq, lt in [("regexp", 6, 7), ("socks5", 4, 6), ("ssh", 4, 6)]
     ] + [
+        # the concurrency harnesses of other properties, in race mode
+        H("c13.VH_listener", {"params": {"CONNS": 2, "L": 2}, "race": True}, {"params": {"CONNS": 3, "L": 2}, "race": True, "preempt": 1}, variant="race", covers=["delivered and read"], weight=3, **_envonly),
+        H("c13.VH_close_pending", {"params": {"CONNS": 2}, "race": True}, {"params": {"CONNS": 3}, "race": True, "preempt": 1}, variant="race", covers=["closed with pending connections"], weight=2, **_envonly),
+        H("c09.VH_udp", {"params": {"KIND": 2, "DGRAMS": 2, "CLIENTS": 2}, "race": True}, {"params": {"KIND": 2, "DGRAMS": 3, "CLIENTS": 2}, "race": True, "preempt": 1}, variant="race", covers=["served"], weight=3, **_envonly),
+        H("c11.VH_relay", {"params": {"PEERS": 2, "BL": 2, "DL": 2, "UPL": 2}, "race": True}, {"params": {"PEERS": 2, "BL": 2, "DL": 2, "UPL": 2}, "race": True, "preempt": 1}, variant="race", covers=["relayed"], weight=4, **_envonly),
+        H("c11.VH_failwindow", {"params": {}, "race": True}, {"params": {}, "race": True, "preempt": 1}, variant="race", covers=["queried"], weight=1, **_envonly),
         H("c08.VH_select", {"params": {}, "race": True}, {"params": {}, "race": True, "preempt": 1}, covers=["selected concurrently"], weight=2, **_envonly),
         H("c08.VH_router", {"params": {"L": 3}, "race": True}, {"params": {"L": 3}, "race": True, "preempt": 1}, covers=["routed concurrently"], weight=3, **_envonly),
     ],
